@@ -3267,6 +3267,10 @@ nested_parse_template_instantiation(CPPTemplateScope *scope) {
         warning("invalid type", loc);
         skip_to_end_nested();
         type = CPPType::new_type(new CPPSimpleType(CPPSimpleType::T_unknown));
+        if (_state == S_eof) {
+          // Nothing left to read; don't keep filling a parameter pack.
+          _parsing_template_params = false;
+        }
       }
       actual_params->_parameters.push_back(type);
 
@@ -3284,6 +3288,9 @@ nested_parse_template_instantiation(CPPTemplateScope *scope) {
         warning("invalid expression", loc);
         skip_to_end_nested();
         expr = new CPPExpression(0);
+        if (_state == S_eof) {
+          _parsing_template_params = false;
+        }
       }
       actual_params->_parameters.push_back(expr);
 
